@@ -142,7 +142,7 @@ func (x *Exec) staticCall(fr *Frame, ins ssa.Instruction, fn *ssa.Function, bind
 			st.guard = x.w.ts.False()
 			return x.havocResult(st, "noreturn", fn.Signature.Results())
 		}
-		st.heap, st.alloc, st.guard = nst.heap, nst.alloc, nst.guard
+		st.heap, st.alloc, st.guard, st.epoch = nst.heap, nst.alloc, nst.guard, nst.epoch
 		_ = pre
 		return packResults(res, nres)
 	}
@@ -162,7 +162,7 @@ func (x *Exec) staticCall(fr *Frame, ins ssa.Instruction, fn *ssa.Function, bind
 			st.guard = x.w.ts.False()
 			return x.havocResult(st, "noreturn", fn.Signature.Results())
 		}
-		st.heap, st.alloc, st.guard = nst.heap, nst.alloc, nst.guard
+		st.heap, st.alloc, st.guard, st.epoch = nst.heap, nst.alloc, nst.guard, nst.epoch
 		x.frameCheck(pre, st, ins)
 		return packResults(res, nres)
 	}
@@ -240,7 +240,7 @@ func (x *Exec) useContract(fr *Frame, ins ssa.Instruction, ct *Contract, args []
 		if nst == nil {
 			unsup("contract function %s does not return", h.Name())
 		}
-		st.heap, st.alloc, st.guard = nst.heap, nst.alloc, nst.guard
+		st.heap, st.alloc, st.guard, st.epoch = nst.heap, nst.alloc, nst.guard, nst.epoch
 		result = x.lastHavocResult
 	}()
 	return result
@@ -765,14 +765,14 @@ func (x *Exec) dispatch(fr *Frame, ins ssa.Instruction, c *ssa.CallCommon, recv 
 		}
 		switch {
 		case sa.guard.isFalse():
-			st.heap, st.alloc, st.guard = sb.heap, sb.alloc, sb.guard
+			st.heap, st.alloc, st.guard, st.epoch = sb.heap, sb.alloc, sb.guard, sb.epoch
 			return rb, true
 		case sb.guard.isFalse():
-			st.heap, st.alloc, st.guard = sa.heap, sa.alloc, sa.guard
+			st.heap, st.alloc, st.guard, st.epoch = sa.heap, sa.alloc, sa.guard, sa.epoch
 			return ra, true
 		}
 		m := x.mergeStatesRel([]*Term{sa.guard, sb.guard}, []*Term{cond, ts.Not(cond)}, []*State{sa, sb})
-		st.heap, st.alloc, st.guard = m.heap, m.alloc, m.guard
+		st.heap, st.alloc, st.guard, st.epoch = m.heap, m.alloc, m.guard, m.epoch
 		if ra == nil && rb == nil {
 			return nil, true
 		}
@@ -860,7 +860,7 @@ func (x *Exec) dispatch(fr *Frame, ins ssa.Instruction, c *ssa.CallCommon, recv 
 		return x.havocResult(st, "noreach", c.Signature().Results()), true
 	}
 	m := x.mergeStatesRel(conds, rels, sts)
-	st.heap, st.alloc, st.guard = m.heap, m.alloc, m.guard
+	st.heap, st.alloc, st.guard, st.epoch = m.heap, m.alloc, m.guard, m.epoch
 	var cur Value
 	for i := len(vals) - 1; i >= 0; i-- {
 		if cur == nil {
